@@ -1275,7 +1275,7 @@ def randmio_dir(R, itr, seed=None):
 
                 i.setflags(write=True)
                 j.setflags(write=True)
-                i[e1] = d
+                j[e1] = d
                 j[e2] = b  # reassign edge indices
                 eff += 1
                 _verif('swap', fn='randmio_dir', R=R, i=i, j=j, e1=e1, e2=e2, a=a, b=b, c=c, d=d)
